@@ -332,7 +332,56 @@ def candidates(case):
         yield c
 
 
+def atheris_lane(tier, seed, shard=0, nshards=1):
+    """Coverage-guided campaign (atheris/libFuzzer) over token sequences with the same oracle inside the target
+    (vlib/fuzz_c14.py); empty start corpus, -seed derived from VERIF_SEED and the shard.  If atheris is not importable
+    the lane reports zero executions (the three generated lanes above do not depend on it)."""
+    import json
+    import os
+    import shutil
+    import subprocess
+    import sys
+    from ..runner import ROOT, Stats, derive_seed
+    stats = Stats()
+    runs = 2500 if tier == 'quick' else 40000
+    work = os.path.join(ROOT, '.work', 'c14-atheris-%d-%d-%d' % (seed, shard, os.getpid()))
+    shutil.rmtree(work, ignore_errors=True)
+    os.makedirs(os.path.join(work, 'corpus'))
+    out = os.path.join(work, 'out.json')
+    env = dict(os.environ)
+    env['PYTHONPATH'] = os.pathsep.join([os.environ.get('VERIF_REPO', '/repo'), ROOT, os.path.join(ROOT, '.deps')])
+    fails = []
+    try:
+        try:
+            p = subprocess.run([sys.executable, '-m', 'vlib.fuzz_c14', out, os.path.join(work, 'corpus'), '-runs=%d' % runs,
+                                '-seed=%d' % (1 + derive_seed(seed, 'C14', 'atheris', shard) % 100000), '-max_len=160'],
+                               cwd=ROOT, env=env, capture_output=True, text=True, timeout=3000)
+        except subprocess.TimeoutExpired:
+            return stats.export(), []
+        n = 0
+        if os.path.exists(out + '.count'):
+            n = json.load(open(out + '.count')).get('n', 0)
+        if p.returncode == 77 and os.path.exists(out):
+            rec = json.load(open(out))
+            n = rec.get('executions', n)
+            fails.append({'lane': 'atheris', 'key': rec['key'], 'detail': rec['detail'], 'case': rec['case'], 'shrink_evals': 0})
+        elif p.returncode == 0:
+            n = max(n, runs)
+        elif 'No module named' in (p.stderr or '') and 'atheris' in p.stderr:
+            n = 0
+        elif p.returncode != 0:
+            # an uncaught exception inside the target other than our own exit: report the tail as a failure of its own bucket
+            fails.append({'lane': 'atheris', 'key': 'fuzz-target-crash', 'detail': (p.stderr or '')[-1500:],
+                          'case': {'tokens': [], 'declare': [], 'consts': []}, 'shrink_evals': 0})
+        stats.evaluations = n
+        stats.labels['atheris-executions'] = n
+    finally:
+        shutil.rmtree(work, ignore_errors=True)
+    return stats.export(), fails
+
+
 LANES = [
+    Lane('atheris', None, check, 0, 1, candidates, custom=atheris_lane, shards=8),     # thorough tier only
     Lane('grammar', lambda tier: spec_files(tier), check, 3000, 60000, candidates),
     Lane('mutated', lambda tier: mutated(tier), check, 12000, 300000, candidates),
     Lane('soup', lambda tier: soup(tier), check, 6000, 150000, candidates),
